@@ -314,7 +314,7 @@ def run(ctx):
                 'reactions whose local parameters shadow a global, share a name with another reaction\'s local, or are private; (4) every '
                 'sequence of <= 3 rules (and 3-4 of a mixed menu) over assignment/rate x species/parameter. Every document with a reaction is also read with import_sbml(file, bioscrape_model=M) into a Model at which a rejected import (a draft whose first law uses an unsupported function) was aimed before. Oracle: the document\'s own '
                 'semantics (libsbml AST evaluated with local scoping; dx/dt = sum stoichiometry x law + rate rules) against the imported '
-                'model\'s derivative after its repeated rules, at 6 states, plus species/parameter values and the rule list. states = '
+                'model\'s derivative after its repeated rules, at 6 states, plus species/parameter values and the rule list. Rate rules with negative, sign-changing and minus-led right-hand sides (species and parameter targets, with and without reactions) are part of the family. states = '
                 'documents; non-trivial = non-zero derivative somewhere.')
     ctx.assumptions = ['documented subset: one compartment of size 1, no events / function definitions / initial assignments',
                        'a document that bioscrape refuses to import is counted, not reported (over-rejection is not this property)']
